@@ -243,10 +243,11 @@ class Expander:
     name occurring in that binding has the same reaching definitions at the binding and at the use
     (so the value is the same).  Used by the shape rules so that `t = e; f(t)` and `f(e)` look alike."""
 
-    def __init__(self, ctx, f, depth: int = 8, only=None):
+    def __init__(self, ctx, f, depth: int = 8, only=None, inline_calls: bool = True):
         """only: optional predicate on the defining expression; names whose definition does not
         satisfy it are left alone (e.g. inline masks and selections but not whole computations)"""
         self.ctx, self.f, self.depth, self.only = ctx, f, depth, only
+        self.inline_calls = inline_calls      # False: calls of package helpers stay calls (value numbering by call)
         self.cfg = ctx.cfg(f)
         self.rd = ctx.rd(f)
         # names whose object is written in place somewhere in the function are never replaced
@@ -377,7 +378,7 @@ class Expander:
                         k.value = self.visit(k.value)
                     return node
                 node = self.generic_visit(node)
-                r = exp._inline_call(node, depth)
+                r = exp._inline_call(node, depth) if exp.inline_calls else None
                 return r if r is not None else node
         return T().visit(_c.deepcopy(e))
 
